@@ -526,8 +526,12 @@ func (w *World) installYields() {
 		return
 	}
 	armed := map[string][]Yield{}
+	parkArmed := false // a parked goroutine may hold a mutex others wait for; the fake clock cannot advance then, so no sleep-type yields
 	for _, y := range w.c.Yields {
 		armed[y.Point] = append(armed[y.Point], y)
+		if y.Kind == "park" {
+			parkArmed = true
+		}
 	}
 	grpctunnel.VerifSetYieldHook(func(point string) {
 		ys := armed[point]
@@ -535,6 +539,10 @@ func (w *World) installYields() {
 			return
 		}
 		w.mu.Lock()
+		if w.frozen {
+			w.mu.Unlock()
+			return // the run is over; the trace is being read
+		}
 		occ := w.yieldOcc[point]
 		w.yieldOcc[point] = occ + 1
 		var hit *Yield
@@ -580,7 +588,7 @@ func (w *World) installYields() {
 			}
 			return
 		}
-		if hit.Kind == "sleep" && sleepSafe[point] && w.c.Cfg.Cap == 0 && w.c.Cfg.Dir != "nested" && w.c.Cfg.Dir != "nestedrev" {
+		if hit.Kind == "sleep" && sleepSafe[point] && w.c.Cfg.Cap == 0 && w.c.Cfg.Dir != "nested" && w.c.Cfg.Dir != "nestedrev" && !parkArmed {
 			w.sleepers.Add(1)
 			time.Sleep(time.Nanosecond)
 			w.sleepers.Add(-1)
@@ -745,22 +753,32 @@ func (w *World) openTunnel(spec TunnelSpec, fatal bool) bool {
 			t.openCtx, t.cancel = context.WithDeadline(ctx, t.expireAt)
 		}
 	}
-	t.conn = w.net.Conn(w.connOpts(spec))
-	stub := tunnelpb.NewTunnelServiceClient(t.conn)
+	conn0 := w.net.Conn(w.connOpts(spec))
+	w.mu.Lock()
+	t.conn = conn0
+	w.mu.Unlock()
+	stub := tunnelpb.NewTunnelServiceClient(conn0)
 
 	switch cfg.Dir {
 	case "fwd", "nested":
+		w.mu.Lock()
 		t.rec.Kind = "fwd"
+		w.mu.Unlock()
 		ch, err := grpctunnel.NewChannel(stub, fcOpt(cfg.ClientFC)...).Start(t.openCtx)
+		w.mu.Lock()
 		if err != nil {
 			t.rec.OpenErr = err.Error()
+			w.mu.Unlock()
 			return !fatal
 		}
 		t.ch = ch
 		t.rec.Opened = true
 		t.rec.ServeStarted = true
+		w.mu.Unlock()
 	case "rev", "nestedrev":
+		w.mu.Lock()
 		t.rec.Kind = "rev"
+		w.mu.Unlock()
 		w.mu.Lock()
 		for len(w.servers) <= spec.Server {
 			rs := &revServer{idx: len(w.servers), conn: t.conn}
@@ -784,23 +802,30 @@ func (w *World) openTunnel(spec TunnelSpec, fatal bool) bool {
 			opened = t.ch != nil || t.rec.ServeReturned >= 0
 			w.mu.Unlock()
 		}
+		w.mu.Lock()
 		t.rec.Opened = opened
 		if !opened {
 			if t.rec.OpenErr == "" {
 				t.rec.OpenErr = "reverse tunnel did not register"
 			}
+			w.mu.Unlock()
 			return !fatal
 		}
+		w.mu.Unlock()
 	default:
 		panic("bad dir " + cfg.Dir)
 	}
+	w.mu.Lock()
 	conn := t.conn
 	if t.server != nil && t.server.conn != nil {
 		conn = t.server.conn
 	}
+	w.mu.Unlock()
 	if cs := conn.Created(); len(cs) > 0 {
+		w.mu.Lock()
 		t.carrier = cs[len(cs)-1]
 		t.rec.Carrier = t.carrier.Idx
+		w.mu.Unlock()
 	}
 	return true
 }
@@ -920,8 +945,9 @@ func (w *World) observeTunnels() {
 	for _, t := range ts {
 		w.mu.Lock()
 		tch := t.ch
+		doneStep, kind, carrier, serveRet := t.rec.DoneStep, t.rec.Kind, t.carrier, t.rec.ServeReturned
 		w.mu.Unlock()
-		if tch != nil && t.rec.DoneStep < 0 {
+		if tch != nil && doneStep < 0 {
 			select {
 			case <-tch.Done():
 				err := tch.Err()
@@ -936,9 +962,9 @@ func (w *World) observeTunnels() {
 			default:
 			}
 		}
-		if t.rec.Kind == "fwd" && t.carrier != nil && t.rec.ServeReturned < 0 {
+		if kind == "fwd" && carrier != nil && serveRet < 0 {
 			w.net.mu.Lock()
-			done, herr := t.carrier.HandlerDone, t.carrier.HandlerErr
+			done, herr := carrier.HandlerDone, carrier.HandlerErr
 			w.net.mu.Unlock()
 			if done {
 				w.mu.Lock()
@@ -1134,6 +1160,11 @@ func (w *World) pullOpLocked(a *Actor) *opSpec {
 	if a.done {
 		return nil
 	}
+	if w.frozen {
+		// the run is over: no new operations (the monitors are about to read the trace)
+		a.done = true
+		return nil
+	}
 	op := a.next()
 	if op == nil {
 		a.done = true
@@ -1250,6 +1281,9 @@ func (w *World) callCtx(r *rpcState) (context.Context, []grpc.CallOption) {
 	w.mu.Lock()
 	r.cancel = cancel
 	w.mu.Unlock()
+	if sp.PreCancel {
+		cancel()
+	}
 	tag := strconv.Itoa(r.idx)
 	if !sp.NoMD {
 		md := metadata.MD{}
@@ -1926,6 +1960,10 @@ func unaryHandler(srv any, ctx context.Context, dec func(any) error, _ grpc.Unar
 		return nil
 	}
 	w.handlerWait(a)
+	if resp == nil && retErr == nil {
+		// released by teardown before the scripted return ran; a unary handler must not return (nil, nil)
+		retErr = status.Error(codes.Aborted, "verif: handler released by teardown")
+	}
 	return resp, retErr
 }
 
